@@ -12,13 +12,7 @@ func H_witness() {
 	rt.Reach("end")
 }
 
-// H_pair: one old file, one new file at the same path, fully symbolic contents.
-// Params: nold, nnew (bytes), B comes from the scaled pwr.BlockSize.
-func H_pair() {
-	rt.SetParam("copybuf", 2)
-	root := rt.TempDir()
-	old := &hlib.Build{Files: []hlib.File{{Path: "a", Data: rt.Bytes("old", rt.Param("nold"))}}}
-	neu := &hlib.Build{Files: []hlib.File{{Path: "a", Data: rt.Bytes("new", rt.Param("nnew"))}}}
+func diffApplyCheck(root string, old, neu *hlib.Build) {
 	old.Write(root + "/old")
 	neu.Write(root + "/new")
 	d := hlib.Diff(root+"/old", root+"/new")
@@ -26,5 +20,118 @@ func H_pair() {
 	rt.Assert(err == nil, "apply returns no error")
 	hlib.AssertSame(hlib.Snapshot(root+"/out"), neu.Entries(), "out==new")
 	hlib.AssertSame(hlib.Snapshot(root+"/old"), old.Entries(), "old untouched")
+}
+
+// H_pair (coincidence hunter): one or two old files and one new file, fully
+// symbolic contents: weak-hash collisions, equal blocks, tails equal to prefixes
+// are all reachable. Params: n0, n1 (-1 absent), nnew.
+func H_pair() {
+	hlib.SetCopyBuf()
+	root := rt.TempDir()
+	old := &hlib.Build{Files: []hlib.File{{Path: "a", Data: rt.Bytes("old0", rt.Param("n0"))}}}
+	if rt.Param("n1") >= 0 {
+		old.Files = append(old.Files, hlib.File{Path: "b", Data: rt.Bytes("old1", rt.Param("n1"))})
+	}
+	neu := &hlib.Build{Files: []hlib.File{{Path: "a", Data: rt.Bytes("new", rt.Param("nnew"))}}}
+	diffApplyCheck(root, old, neu)
+	rt.Reach("end")
+}
+
+func cat(bs ...[]byte) []byte {
+	var out []byte
+	for _, b := range bs {
+		out = append(out, b...)
+	}
+	return out
+}
+
+// derive builds the content of a new file from old file o according to selector sel.
+func derive(sel int, o []byte, label string) (data []byte, ok bool) {
+	B := hlib.B()
+	switch sel {
+	case 0, 1, 2: // identical (same path / renamed / duplicated): content as is
+		return append([]byte{}, o...), true
+	case 3: // block-aligned prefix
+		if len(o) < B {
+			return nil, false
+		}
+		return append([]byte{}, o[:B]...), true
+	case 4: // block-aligned suffix
+		if len(o) <= B {
+			return nil, false
+		}
+		return append([]byte{}, o[B:]...), true
+	case 5: // one-byte edit in the middle
+		if len(o) == 0 {
+			return nil, false
+		}
+		d := append([]byte{}, o...)
+		d[len(o)/2] = rt.Byte(label + "-edit")
+		return d, true
+	case 6: // insertion of two bytes after the first byte
+		if len(o) == 0 {
+			return nil, false
+		}
+		return cat(o[:1], rt.Bytes(label+"-ins", 2), o[1:]), true
+	case 7: // fresh content
+		return rt.Bytes(label+"-fresh", B+1), true
+	case 8: // empty
+		return []byte{}, true
+	}
+	return nil, false
+}
+
+// H_shapes: tree shapes. Old build: files x (n0 bytes), sub/y (n1 bytes), an empty dir
+// and a symlink. New build: two file slots derived from x resp. sub/y by the selectors
+// s0, s1 (see derive), with symlink/dir changes chosen by `extra`.
+// All symbolic bytes are assumed pairwise distinct (generic position).
+func H_shapes() {
+	hlib.SetCopyBuf()
+	root := rt.TempDir()
+	x := rt.Bytes("x", rt.Param("n0"))
+	y := rt.Bytes("y", rt.Param("n1"))
+	old := &hlib.Build{Files: []hlib.File{{Path: "x", Data: x}, {Path: "sub/y", Data: y}}, Dirs: []string{"empty"}, Links: []hlib.Link{{Path: "lnk", Dest: "x"}}}
+	s0, s1, extra := rt.Param("s0"), rt.Param("s1"), rt.Param("extra")
+	d0, ok0 := derive(s0, x, "n0")
+	d1, ok1 := derive(s1, y, "n1")
+	if !ok0 || !ok1 {
+		rt.Reach("end") // shape not applicable to these sizes
+		return
+	}
+	var all [][]byte
+	all = append(all, x, y)
+	if s0 >= 5 && s0 <= 7 {
+		all = append(all, d0)
+	}
+	neu := &hlib.Build{}
+	switch s0 {
+	case 1:
+		neu.Files = append(neu.Files, hlib.File{Path: "renamed-x", Data: d0})
+	case 2:
+		neu.Files = append(neu.Files, hlib.File{Path: "x", Data: d0}, hlib.File{Path: "sub/copy-of-x", Data: append([]byte{}, d0...)})
+	default:
+		neu.Files = append(neu.Files, hlib.File{Path: "x", Data: d0})
+	}
+	switch s1 {
+	case 1:
+		neu.Files = append(neu.Files, hlib.File{Path: "moved/y", Data: d1})
+	case 2:
+		neu.Files = append(neu.Files, hlib.File{Path: "sub/y", Data: d1}, hlib.File{Path: "y2", Data: append([]byte{}, d1...)})
+	default:
+		neu.Files = append(neu.Files, hlib.File{Path: "sub/y", Data: d1})
+	}
+	switch extra {
+	case 0: // symlink and dir kept
+		neu.Dirs = []string{"empty"}
+		neu.Links = []hlib.Link{{Path: "lnk", Dest: "x"}}
+	case 1: // symlink retargeted, dir removed
+		neu.Links = []hlib.Link{{Path: "lnk", Dest: "sub/y"}}
+	case 2: // symlink removed, new empty dir and new symlink added
+		neu.Dirs = []string{"empty", "another/empty"}
+		neu.Links = []hlib.Link{{Path: "sub/l2", Dest: "../x"}}
+	}
+	// generic position: distinct symbolic bytes (derived copies share terms, fresh parts are new symbols)
+	hlib.DistinctSyms(x, y, d0, d1)
+	diffApplyCheck(root, old, neu)
 	rt.Reach("end")
 }
